@@ -3,6 +3,8 @@
 Under contract (real code, lowered on every run):
   XmppSocket::processData                      per-call contract (processData.spec), loop contract over the child iteration
   XmppSocket::setSocket::<lambda#3> (readyRead) "processData is called once with fromUtf8 of exactly the bytes of this read"
+  XmppSocket::setSocket::<lambdas connected to `connected` and `encrypted`>: every started() is emitted in the initial framing state
+                                               (empty buffer, empty cached stream header) = base case of the framing argument
   the same lambda with a BOUNDED CONCRETE byte model: two reads of <= 4 bytes; decode(a) ++ decode(b) == decode(a ++ b)
 Lemma (contracts only): a read that does not complete the buffered text leaves a state from which the next read behaves as if both
 reads had arrived in one piece (the text handed to the oracles and to the parser is the same sequence).
@@ -34,6 +36,8 @@ ASSUMED = [
     'A-ORACLE: QRegularExpression::match().hasMatch()/captured() for the two patterns of processData, QString::trimmed().isEmpty(), QDomDocument::setContent(text, true) and documentElement() are uninterpreted functions of the text (captured(0) of a match is non-empty; a parsed document has a root). The lowering accepts exactly the two pattern texts recorded in unit.py; another pattern is exit 2.',
     'A-DOM-SEQ: element children of a node form a finite sequence (at most 10^9) in document order; firstChildElement() is its first member, nextSiblingElement() of the k-th its (k+1)-th',
     'A-SIGNAL: emitting streamReceived/stanzaReceived/streamClosed is a synchronous call that does not modify the XmppSocket (no re-entry into processData from a slot)',
+    'A-TEXT-SIZE: QString::size() is the sum of the unknown positive lengths of the chunks (1..2^27 characters each), hence additive over concatenation; nothing else is known about it, so any threshold on the buffer size can be exceeded by a buffer that still holds an incomplete element',
+    'A-STARTED: started() is the only announcement of a new stream; the reads of a connection arrive after the connected (plain TCP / STARTTLS first phase) resp. encrypted (direct TLS, STARTTLS second phase) handler has run (Qt delivers readyRead of a connection after connected(); TLS handshake bytes never reach readyRead)',
     'A-READALL: QSslSocket::readAll() returns all bytes the transport delivered in this read and leaves none',
     'A-UTF8-DEC (units/C03/utf8_model.h, bounded proofs only): concrete model of QString::fromUtf8(QByteArray) of Qt 5.15 -- input ends at the first NUL, a leading EF BB BF of the call is skipped, well-formed RFC 3629 sequences give their code point, every other byte (including the bytes of a sequence cut off by the end of the input) gives one U+FFFD. Compared with the real function on 4.7 million inputs by `replay_split.cpp model` (thorough tier: disagreement = exit 2).',
     'stand-in for processData in the bounded two-read lemma: the clause post.on_parse_failure_buffer_is_old_plus_data of its verified contract, read on concrete texts (buffer := old ++ data)',
@@ -43,11 +47,11 @@ NOT_COVERED = [
     'the property as a whole (same event sequence for EVERY partition of EVERY valid stream): it needs A-DOM-PREFIX, a theorem about QDomDocument; what is decided here is the per-call contract of processData, the lemma "a rejected read is invisible" over that contract, and the decoding step',
     'content identity of a delivered stanza beyond "it is the k-th child element of the root of the parse of [cached header] ++ buffer ++ [close tag]" (what that element contains is Qt\'s parser)',
     'the number of whitespace keep-alive notifications (stanzaReceived with a null element) does depend on the split: white space arriving alone in a read is notified, white space arriving together with a stanza is not; the contract states the per-call behaviour only',
-    'the connected / encrypted lambdas of setSocket (they clear buffer and cached header before started()), sendData, TLS, real socket scheduling; invalid streams (NUL bytes, ill-formed XML that never parses: the buffer then grows without bound, cf. Stream.cpp:236)',
+    'disconnectFromHost (its QByteArrayLiteral expands to a lambda with static data the lowering does not handle; it has no obligation towards the framing state: the reset that matters is the one at connection start, which is under contract), the errorOccurred lambda, sendData, TLS, real socket scheduling, the order of connected()/readyRead() inside Qt (A-STARTED); invalid streams (NUL bytes, ill-formed XML that never parses: the buffer then grows without bound, cf. Stream.cpp:236)',
     'the UTF-8 lemma is bounded: two reads of at most 4 bytes; k-way splits and longer reads follow only informally (decoding is per read and per character)',
     'Qt 6 branches (#if QT_VERSION) are not seen by clang in this configuration',
 ]
-EXPLANATION = ('claimed narrowly (DESIGN 6/C03, 7). processData: unbounded proof with a loop contract over the child iteration; texts are free-monoid sequences, the parser and '
+EXPLANATION = ('claimed narrowly (DESIGN 6/C03, 7). Base case: the connected and encrypted lambdas of setSocket emit started() only in the initial framing state; lemma: the first read of a connection is framed from that connection\'s text only. processData: unbounded proof with a loop contract over the child iteration; texts are free-monoid sequences, the parser and '
                'the two regular expressions are oracles. readyRead lambda: verified against the contract of processData with data := fromUtf8(bytes of this read). '
                'Bounded stand-in: the real lambda on a concrete RFC 3629 decoder model, two reads of <= 4 bytes: decode(a) ++ decode(b) == decode(a ++ b) holds when the read '
                'boundary lies between characters and the second read does not start with EF BB BF, and FAILS inside a multi-byte sequence / before EF BB BF '
@@ -185,6 +189,7 @@ def opaque_prof():
     calls = {
         'qtext::append/1': ('fnmut', 'qtext_append'), 'qtext::prepend/1': ('fnmut', 'qtext_prepend'), 'qtext::clear/0': ('fnmut', 'qtext_clear'),
         'qtext::isEmpty/0': ('fn', 'qtext_isEmpty'), 'qtext::trimmed/0': ('fn', 'qtext_trimmed'),
+        'qtext::size/0': ('fn', 'qtext_size'), 'qtext::length/0': ('fn', 'qtext_size'), 'qtext::count/0': ('fn', 'qtext_size'),
         'static:streamStartRegex': static_regex, 'static:streamEndRegex': static_regex,
         'qregex::match/1': ('fnret', 'qregex_match', 'qrematch'),
         'qrematch::hasMatch/0': ('fn', 'qrematch_hasMatch'), 'qrematch::captured/0': ('fn', 'qrematch_captured'),
@@ -194,7 +199,9 @@ def opaque_prof():
         'qdom::firstChildElement/0': ('fn', 'qdom_firstChildElement_seq'),
         'qdom::nextSiblingElement/0': ('fn', 'qdom_nextSiblingElement_seq'),
         'qdom::isNull/0': ('expr', '{0} == 0'),
-        '*::logReceived/1': ('drop',),
+        '*::logReceived/1': ('drop',), '*::debug/1': ('drop',), '*::info/1': ('drop',), '*::warning/1': ('drop',),
+        # the connected / encrypted lambdas
+        '*::started/0': ('expr', 'ev_started({0}->m_dataBuffer, {0}->m_streamOpenElement)'),
         '*::stanzaReceived/1': ('expr', 'ev_stanzaReceived({1})'),
         '*::streamReceived/1': ('expr', 'ev_streamReceived({1})'),
         '*::streamClosed/0': ('expr', 'ev_streamClosed()'),
@@ -204,7 +211,7 @@ def opaque_prof():
         'XmppSocket::processData/1': ('callee', 'XmppSocket_processData'),
     }
     p = Profile(types=base_types(), class_types={'qrematch', 'QDomDocument', 'XmppSocket', 'QSslSocket'}, calls=calls,
-                literal_ids=StringTable(), string_types={'qtext'}, pure_fns={'documentElement'})
+                literal_ids=StringTable(), string_types={'qtext'}, pure_fns={'documentElement', 'peerAddress', 'peerPort', 'errorString'})
     return p
 
 
@@ -338,6 +345,57 @@ void h_two_reads(void) {
 """
 
 
+LEMMA_FIRST_READ = """
+/* LEMMA (contracts only): base case of the framing argument.  Whatever an earlier connection left behind in the XmppSocket, after the
+   connection handlers (connected; with direct TLS: then encrypted) have announced the stream with started(), the first read is framed
+   from this connection's own text only: the parser is asked about d ++ [close tag if d has none], and a rejected first read leaves
+   exactly d in the buffer. */
+void h_lemma_first_read_of_a_connection(void) {
+  XmppSocket s; qtext d = nondet_ulong();
+  s.m_dataBuffer = nondet_ulong(); s.m_streamOpenElement = nondet_ulong(); s.m_directTls = nondet_bool(); s.m_socket = 0;
+  __CPROVER_assume(text_wf(d) && (d >> 16) == 0 && text_input(s.m_dataBuffer) && text_input(s.m_streamOpenElement));
+  g_k = nondet_int(); __CPROVER_assume(g_k >= 0);
+  gh_started_cnt = 0;
+  XmppSocket_onConnected(&s);
+  if (s.m_directTls) XmppSocket_onEncrypted(&s);
+  __CPROVER_assert(gh_started_cnt == 1 && gh_started_buffer == text_empty() && gh_started_cache == text_empty(), "[lemma.stream_is_announced_once_in_the_initial_framing_state]");
+  gh_ev_total = 0; gh_open_cnt = 0; gh_stanza_cnt = 0; gh_closed_cnt = 0; gh_parse_calls = 0;
+  XmppSocket_processData(&s, d);
+  __CPROVER_assert(gh_parse_calls == 0 || gh_parse_input == text_cat(d, HAS_CLOSE(d) ? text_empty() : CLOSE_TAG), "[lemma.first_read_is_framed_from_this_connections_text_only]");
+  __CPROVER_assert(!(gh_parse_calls == 1 && !gh_parse_ok) || s.m_dataBuffer == d, "[lemma.rejected_first_read_leaves_exactly_its_own_text]");
+}
+"""
+
+
+def build_connection_lambdas(b, src, mkhead, pd, proofs):
+    """connected / encrypted lambdas of setSocket: every started() is emitted in the initial framing state (empty buffer, empty cached
+    stream header) -- the precondition under which the first read of a connection is framed"""
+    fn = astx.find_function(src, 'XmppSocket::setSocket', 'setSocket')
+    texts = {}
+    for signal, cname, specf in (('connected', 'XmppSocket_onConnected', 'connected.spec'), ('encrypted', 'XmppSocket_onEncrypted', 'encrypted.spec')):
+        lam = find_lambda_connected_to(fn, signal)
+        sp = b.spec(specf)
+        t = Target(SRC, 'XmppSocket::setSocket', 'operator()', cname, this='XmppSocket', lowerer_cls=LambdaLowerer)
+        t.decl = lam
+        txt = b.lower(t, sp)
+        b.functions[-1]['function'] = 'XmppSocket::setSocket::<lambda connected to %s>' % signal
+        texts[cname] = (txt, sp)
+    for cname, (txt, sp) in texts.items():
+        short = cname.replace('XmppSocket_', '')
+        f = b.write(short + '.c', mkhead() + txt + 'void h_%s(void) { XmppSocket *self; gh_started_cnt = nondet_uint(); %s(self); }\n' % (short, cname))
+        p = Proof(short + '_lambda', f, 'h_' + short, enforce=cname, kind='complete', loop_contracts=False, include_dirs=[QT], timeout=300,
+                  note='loop-free; every previous content of buffer and cached header')
+        p.labels = {'post': {cname: sp.labels}}
+        p.expect_post = len(sp.labels)
+        proofs.append(p)
+    f = b.write('lemma_first_read.c', mkhead() + '#define DATA (data)\n' + b.prototype(pd) + b.prototype(texts['XmppSocket_onConnected'][0]) + b.prototype(texts['XmppSocket_onEncrypted'][0]) + LEMMA_FIRST_READ)
+    p = Proof('lemma.first_read_of_a_connection', f, 'h_lemma_first_read_of_a_connection', enforce=None,
+              replace=['XmppSocket_processData', 'XmppSocket_onConnected', 'XmppSocket_onEncrypted'], kind='complete', loop_contracts=False, include_dirs=[QT], timeout=300,
+              note='uses only the contracts of the connected / encrypted lambdas and of processData')
+    p.expect_post = 3
+    proofs.append(p)
+
+
 def build_lambda_opaque(b, prof, head, pd, lam, proofs):
     """the readyRead lambda (opaque bytes): contract of processData with data := fromUtf8(bytes of this read)"""
     from vlib.unit import Spec
@@ -397,7 +455,10 @@ def build(work, tier):
     pd = b.lower(Target(SRC, 'XmppSocket::processData', 'processData', 'XmppSocket_processData', this='XmppSocket', parent=None), sp)
     if len(prof.literal_ids.ids) > 200:
         raise ToolError('more string literals than atom names')
-    head = '#include "base.h"\n' + prof.literal_ids.table() + b.subst(rd('model.h')) + SOCKET_MODEL + rec + '\n' + b.subst(rd('spec_defs.h'))
+    def mkhead():
+        # literal table and context (enum / namespace-scope constants the lowered code refers to) as of now
+        return '#include "base.h"\n' + prof.literal_ids.table() + b.subst(rd('model.h')) + SOCKET_MODEL + rec + '\n' + b.context() + '\n' + b.subst(rd('spec_defs.h'))
+    head = mkhead()
     proofs = []
     harness = """
 void h_processData(void) {
@@ -419,6 +480,21 @@ void h_processData(void) {
               note='uses only the contract of processData (three calls replaced by it); texts of one chunk each')
     p.expect_post = 8
     proofs.append(p)
+    # the same comparison on the REAL body (three inlined calls, loops closed by the loop contract): the property's postcondition at the text
+    # level -- what is delivered after [d1 (rejected); d2] is what ONE read of d1 ++ d2 delivers
+    f = b.write('split_two_reads.c', head + '#define DATA (data)\n' + pd + LEMMA_ACC.replace('h_lemma_rejected_read_is_invisible', 'h_split_two_reads_vs_one_read'))
+    p = Proof('split.two_reads_deliver_what_one_read_delivers', f, 'h_split_two_reads_vs_one_read', enforce=None, replace=[], kind='contract',
+              loop_contracts=True, expect_loops=1, include_dirs=[QT], timeout=900,
+              note='real processData inlined three times (no contract replacement); texts of one chunk each; any number of children')
+    p.labels = {'inv': {'XmppSocket_processData': sp.inv_labels.get(0, [])}}
+    p.expect_post = 8
+    proofs.append(p)
+    # ---------------------------------------------------------------- base case: the connected / encrypted lambdas of setSocket
+    try:
+        build_connection_lambdas(b, src, mkhead, pd, proofs)
+    except (Unsupported, astx.ExtractError) as e:
+        proofs.append(UndecidedProof('connection_start', str(e)))
+    head = mkhead()
     cb = Builder('C03', work, concrete_prof())
     try:
         fn = astx.find_function(src, 'XmppSocket::setSocket', 'setSocket')
@@ -465,25 +541,42 @@ void h_processData(void) {
                 native_note += '; native replay %s failed to build: %s' % (fid, str(e)[-200:])
     return {
         'proofs': proofs, 'functions': functions, 'dropped': b.dropped + cb.dropped, 'fired': fired, 'hooks': [],
-        'assumed': ASSUMED, 'assumes': scan_assumes(rd('model.h') + SOCKET_MODEL + LEMMA_ACC + LEMMA_UTF8), 'not_covered': NOT_COVERED,
+        'assumed': ASSUMED, 'assumes': scan_assumes(rd('model.h') + SOCKET_MODEL + LEMMA_ACC + LEMMA_FIRST_READ + LEMMA_UTF8), 'not_covered': NOT_COVERED,
         'explanation': EXPLANATION + native_note,
     }
 
 
+_NATIVE_CACHE = {}
+
+
 def find_input(unit, proof, ob, label, work):
-    """a failing obligation of the bounded two-read lemma is replayed on the real XmppSocket over loopback TCP with a representative
-    of the input class of the failed proof (the class, not CBMC's particular bytes, is what the lemma is about)"""
-    if not proof.id.startswith('utf8.two_reads'):
-        return None
+    """a failed obligation is replayed on the real XmppSocket over loopback TCP with the driver mode that exercises the input class of
+    the failed proof (the class, not CBMC's particular values, is what the obligations are about: texts and bytes are opaque there)"""
     from vlib import native
-    args = ['two', '78', 'efbbbf'] if 'EF_BB_BF' in proof.id else ['two', 'e282', 'ac'] if 'between' not in proof.id else ['two', 'c3', 'a9']
-    rc, out = native.run_driver(os.path.join(HERE, 'replay_split.cpp'), args, extra_cxx=['-I' + HERE], timeout=600)
-    return {'inputs': {'driver': 'units/C03/replay_split.cpp', 'args': args, 'meaning': 'bytes of the message body before | after the read boundary (hex)'},
-            'native_output': out[-3000:], 'reproduced': rc == 1}
+    drv = os.path.join(HERE, 'replay_split.cpp')
+    if proof.id.startswith('utf8.two_reads'):
+        tries = [(['two', '78', 'efbbbf'] if 'EF_BB_BF' in proof.id else ['two', 'e282', 'ac'] if 'between' not in proof.id else ['two', 'c3', 'a9'], 1,
+                  'bytes of the message body before | after the read boundary (hex)')]
+    elif proof.id.startswith(('onConnected', 'onEncrypted', 'lemma.first_read')):
+        tries = [(['reconnect'], 1, 'one XmppSocket: first connection reset by the peer inside an element, then a second connection with a valid stream')]
+    else:
+        tries = [(['big'], 1, 'a stream with one 100 KB element delivered in reads of 4096 bytes, compared with one read'),
+                 (['split2'], 3, 'corpus of four streams x every 2-way split; exit 3 = a split outside the recorded UTF-8 finding classes changes the delivery')]
+    last = None
+    for args, want, meaning in tries:
+        key = tuple(args)
+        if key not in _NATIVE_CACHE:
+            _NATIVE_CACHE[key] = native.run_driver(drv, args, extra_cxx=['-I' + HERE], timeout=900)
+        rc, out = _NATIVE_CACHE[key]
+        last = {'inputs': {'driver': 'units/C03/replay_split.cpp', 'args': args, 'reproduced_exit_code': want, 'meaning': meaning}, 'native_output': out[-3000:], 'reproduced': rc == want}
+        if rc == want:
+            break
+    return last
 
 
 def native_replay(rp):
     from vlib import native
-    args = (rp.get('inputs') or {}).get('args', ['two', 'c3', 'a9'])
+    inp = rp.get('inputs') or {}
+    args = inp.get('args', ['two', 'c3', 'a9'])
     rc, out = native.run_driver(os.path.join(HERE, 'replay_split.cpp'), args, extra_cxx=['-I' + HERE], timeout=900)
-    return rc == 1, out[-3000:]
+    return rc == inp.get('reproduced_exit_code', 1), out[-3000:]
